@@ -48,6 +48,7 @@ def deployed(N, E, theta):
 
 def fam_rotation(ctx, rng):
     n = int(rng.choice([50, 500, 3000]))
+    n, _ = gen.maybe_large(rng, ctx, n, [1_100_000, 2_300_000], p_quick=0.01, p_thorough=0.02)   # hours of data
     sc = gen.scale(rng)
     s = gen.signal(rng, n) * sc
     psi, theta = angle(rng), angle(rng)
